@@ -78,3 +78,41 @@ UNITS.append(dict(
     harness='void h_mpz_scan1 (void) {\n' + OBJ + '  mp_bitcnt_t sb = nondet_ulong (); gb = nondet_ulong ();\n  __gmpz_scan1 (&U, sb);\n}', timeout=900,
     selftest=[('__gmpz_scan1', r'limb = -limb;', 'limb = ~limb;'), ('__gmpz_scan1', r'limb--;', ';'),
               ('__gmpz_scan1', r'return \(mp_bitcnt_t\)abs_size \* \(64 - 0\);', 'return (mp_bitcnt_t)abs_size * (64 - 0) + 1;')]))
+
+# ------------------------------------------------------------------ mpz_com: ~x = -x - 1 (the two's-complement identity), as limb chains on the magnitudes
+from c04_alloc import mpz_obj
+from c03_mpz import split_alias, ALIAS2, A2
+_com = dict(name='mpz_com', props=['C10', 'C04', 'C05', 'C15'], source='mpz/com.c', contracts=['mpn.h', 'mpz.h'],
+    contract_text='''void __gmpz_com (mpz_ptr dst, mpz_srcptr src)
+__CPROVER_requires (V_WF (dst) && V_WF (src) && V_ABSIZ (src) < V_ZMAX && V_GHOSTS_OK)
+__CPROVER_assigns (*dst, __CPROVER_object_whole (V_PTR (dst)), g_ci, g_co, g2_ci, g2_co)
+__CPROVER_frees (V_PTR (dst))
+__CPROVER_ensures (V_WF_AT (dst, gk));
+''', enforce=['__gmpz_com'], replace=['__gmpz_realloc', '__gmpn_add_1', '__gmpn_sub_1'],
+    harness='void h_mpz_com (void) {\n' + mpz_obj('W') + mpz_obj('U') + ALIAS2 + '''  gk = nondet_long (); gh = nondet_long ();
+  __CPROVER_assume (0 <= gk && gk < V_ZMAX && 0 <= gh && gh <= V_NMAX && V_WF (w) && V_WF (u));
+  gj = gk + 1;
+  long su = V_SIZ (u), un = V_ABS (su);
+  mp_limb_t Uk = gk < un ? V_PTR (u)[gk] : 0;
+  __gmpz_com (w, u);
+  long sw = V_SIZ (w), wn = V_ABS (sw);
+  mp_limb_t Wk = V_PTR (w)[gk < V_ALLOC (w) ? gk : 0], one = (gk == 0 ? 1 : 0);
+  if (su == 0)
+    __CPROVER_assert (sw == -1 && V_PTR (w)[0] == 1, "[C10] ~0 = -1");
+  else if (su > 0)
+    { /* ~x = -(x + 1) */
+      __CPROVER_assert (gk < un ==> (g_ci <= 1 && g_co <= 1 && V_ADDREL (Wk, Uk, one, g_ci, g_co)), "[C10][C05] x >= 0: |~x| = x + 1, carry chain at limb gk");
+      __CPROVER_assert ((gk == 0 && gk < un) ==> g_ci == 0, "[C10] no carry into limb 0");
+      __CPROVER_assert (gk == un - 1 ==> (g_co == 0 ? wn == un : (wn == un + 1 && V_PTR (w)[un] == 1)), "[C10] a carry out of the top limb becomes a new limb 1");
+      __CPROVER_assert (sw < 0, "[C10] ~x is negative for x >= 0");
+    }
+  else
+    { /* x < 0: ~x = |x| - 1 >= 0 */
+      __CPROVER_assert (gk < un ==> (g_ci <= 1 && g_co <= 1 && V_SUBREL (Wk, Uk, one, g_ci, g_co)), "[C10][C05] x < 0: ~x = |x| - 1, borrow chain at limb gk");
+      __CPROVER_assert ((gk == 0 && gk < un) ==> g_ci == 0, "[C10] no borrow into limb 0");
+      __CPROVER_assert (sw >= 0 && (wn == un || wn == un - 1) && ((wn <= gk && gk < un) ==> Wk == 0), "[C10][C04] non-negative, size drops by at most one limb");
+    }
+  if (u != w) __CPROVER_assert ((long) V_SIZ (u) == su && (gk < un ==> V_PTR (u)[gk] == Uk), "[C05] source unchanged");
+}''', timeout=600,
+    selftest=[('__gmpz_com', r'dst->_mp_alloc < size \+ 1', 'dst->_mp_alloc < size'), ('__gmpz_com', r'dst->_mp_size = -size;', 'dst->_mp_size = size;')])
+UNITS.extend(split_alias(_com, ALIAS2, A2))
